@@ -579,6 +579,12 @@ def get_attribute(interp: Any, obj: Any, name: str) -> Any:
             return Builtin("object.__new__", lambda it, a, k: ObjVal(a[0]))
         if name == "__name__":
             return obj.name
+        if name == "__module__":
+            if "__module__" in obj.attrs:
+                return obj.attrs["__module__"]
+            if isinstance(obj, ExtClass):
+                return "torch.nn.modules." + obj.name.lower()  # ASSUMED: the external classes of the catalogue are torch.nn layers
+            return obj.module.name if getattr(obj, "module", None) is not None else "builtins"
         if name == "__qualname__":
             return getattr(obj, "qualname", obj.name)
         if name == "mro":
@@ -663,6 +669,11 @@ def set_attribute(interp: Any, obj: Any, name: str, v: Any) -> None:
     from .interp import ClassVal, FuncVal, ObjVal
 
     if isinstance(obj, ObjVal):
+        if name == "__class__":
+            # re-classing an instance in place
+            interp.ctx.effects.append(("setattr", obj, name))
+            obj.cls = v
+            return
         for c in obj.cls.mro():
             sa = getattr(c, "methods", {}).get("__setattr__") if not isinstance(c, ClassVal) else None
             if sa is not None:
